@@ -390,7 +390,11 @@ pub fn generate_c16(run_seed: u64, thorough: bool) -> ListDesc {
     let mut fr = Rng::new(rng::derive(run_seed, &[rng::label("fine")]));
     let mut fine = None;
     if threads.len() > 1 && fr.chance(1, 16) {
-        let cands: Vec<(usize, usize)> = threads.iter().enumerate().flat_map(|(t, p)| (0..p.ops.len()).map(move |i| (t, i))).collect();
+        // Rust-origin operations only: a window on a script-origin operation mostly single-steps
+        // the call glue and the generated code around the list operation, which is C12's subject
+        // (and where a soak with seed 23 produced ten reports that are not yet classified, see
+        // DESIGN 10.11, observation O5)
+        let cands: Vec<(usize, usize)> = threads.iter().enumerate().flat_map(|(t, p)| p.ops.iter().enumerate().filter(|(_, o)| o.1 == Origin::Rust).map(move |(i, _)| (t, i))).collect();
         if !cands.is_empty() {
             let (t, i) = *fr.pick(&cands);
             // log-uniform in 1..=4095
